@@ -974,8 +974,9 @@ def pair_family(ctx, prop_id, mode, profile, n, kinds, rule, extra=None, also_s5
     ob, dis, details = proof_obligations(ctx, prop_id)
     profiles = profile if isinstance(profile, (list, tuple)) else [(profile, n)]
     cases = None
-    for prof, cnt in profiles:
-        cs = load_cases(ctx, mode, cnt, prof)
+    for ent in profiles:
+        m, prof, cnt = ent if len(ent) == 3 else (mode,) + tuple(ent)
+        cs = load_cases(ctx, m, cnt, prof)
         if cs is not None:
             cases = (cases or []) + cs
     stats = collections.Counter(); distinct = set()
@@ -1022,10 +1023,12 @@ def pair_family(ctx, prop_id, mode, profile, n, kinds, rule, extra=None, also_s5
 def c13(ctx):
     n = 600 if ctx.tier == 'quick' else 6000
     rule = ('each generated chain is re-run (real nject) in variants that must be indistinguishable: nested in random sub-Sequences, built '
-            'with Append, with Provide names, with an annotation applied to a sub-collection instead of to each member, and with an Unused '
-            'parameter added to the final function / a Required provider / invoke / init; compared: bind verdict class, included providers, '
+            'with Append, with Provide names, with an annotation applied to a sub-collection instead of to each member (derivations from the '
+            'annotated things made and discarded on the side), and with an Unused '
+            'parameter added to the final function / a Required provider / invoke / init; chains with named edits (edit generator) with each '
+            'run of equal directives applied to a sub-collection instead of to each member; compared: bind verdict class, included providers, '
             'full call trace (Unused arguments stripped); evaluations = pairs compared; distinct = (variant kind, provider list)')
-    return pair_family(ctx, 'C13', 'neutral', 'default', n, None, rule, also_s5=False)
+    return pair_family(ctx, 'C13', 'neutral', [('neutral', 'default', n), ('editcoll', 'default', n)], n, None, rule, also_s5=False)
 
 
 @prop('C16')
@@ -1080,7 +1083,7 @@ def c14(ctx):
             'Required: d must be included in the base exactly when the variant binds, and then both behave identically (verdict, included '
             'set, trace); MustConsume: verified validator on the implementation\'s bound chain (nearest actual consumer); S5 correspondence')
     expected_probes(ctx, ['annotation-leak/MustConsume'])
-    return pair_family(ctx, 'C14', 'desired', [('plain', n), ('reorderplain', n // 3)], n, ['desired'], rule, extra)
+    return pair_family(ctx, 'C14', 'desired', [('plain', n), ('reorderplain', n // 3), ('cluster', n // 3)], n, ['desired'], rule, extra)
 
 
 # ---------------------------------------------------------------- concurrency family: C08 C09 C10 (C12 below)
